@@ -33,6 +33,7 @@ PROPS = {
         stages=[
             dict(name="changed", run="^TestC02_Changed$", quick=1500, thorough=20000, shards_quick=4, shards_thorough=16),
             dict(name="huge_line_counts", run="^TestC02_HugeLineCounts$", quick=1, thorough=1, shards_quick=4, shards_thorough=16),
+            dict(name="many_mismatches", run="^TestC02_ManyMismatches$", quick=1, thorough=1, shards_quick=4, shards_thorough=8),
             dict(name="k1probe", run="^TestC02K1_", quick=1500, thorough=20000, shards_quick=1, shards_thorough=1),
             dict(name="fuzz", engine="fuzz", target="FuzzC02Changed", run="FuzzC02Changed", fuzztime=60, thorough_only=True),
         ],
